@@ -173,6 +173,24 @@ func c08ReadOne(conn *websocket.Conn, api string) (r c08Reading) {
 			r.typ, r.data, r.err = conn.Read(ctx)
 			return
 		}
+		if api == "close" {
+			// the application closes while the peer's frame is in flight: the close
+			// handshake skips the frame (nothing is delivered)
+			r.err = conn.Close(websocket.StatusNormalClosure, "")
+			return
+		}
+		if api == "closeread" {
+			// CloseRead is active: an unexpected data frame makes the library close with a
+			// policy violation and skip what arrives until the peer's Close frame
+			cctx := conn.CloseRead(context.Background())
+			select {
+			case <-cctx.Done():
+			case <-ctx.Done():
+				r.err = ctx.Err()
+			}
+			conn.CloseNow() // waits for the CloseRead goroutine
+			return
+		}
 		typ, rd, err := conn.Reader(ctx)
 		if err != nil {
 			r.err, r.openErr = err, true
@@ -659,6 +677,16 @@ func c08Cases(thorough bool) []c08Case {
 					}
 					out = append(out, c08Case{Kind: "limit", Client: client, Comp: "takeover-text", API: api, Msgs: ms})
 					out = append(out, c08Case{Kind: "limit", Client: client, Comp: "takeover-text", API: api, Msgs: ms, ColdPools: true})
+				}
+			}
+		}
+	}
+	// lying headers met by the close handshake instead of a reader
+	for _, client := range []bool{false, true} {
+		for _, api := range []string{"close", "closeread"} {
+			for _, decl := range []uint64{1 << 28, 1 << 40} {
+				for _, op := range []int{frame.OpBinary, frame.OpCont, frame.OpPing} {
+					out = append(out, c08Case{Kind: "declared", Client: client, Comp: "off", API: api, Declared: decl, Opcode: op, InMsg: op != frame.OpBinary, K: 10})
 				}
 			}
 		}
